@@ -49,6 +49,7 @@ func cmdFunc(args []string) {
 	timeout := fs.Int("t", 5, "solver timeout")
 	keep := fs.Bool("keep", false, "keep all smt files")
 	verbose := fs.Bool("v", false, "verbose")
+	tier := fs.String("tier", "quick", "quick|thorough")
 	fs.Parse(args)
 	p, err := eng.LoadProgram(*repo, strings.Split(*pkgs, ","))
 	if err != nil {
@@ -56,6 +57,7 @@ func cmdFunc(args []string) {
 		os.Exit(2)
 	}
 	e := eng.NewEngine(p)
+	e.Tier = *tier
 	if err := e.LoadAllSpecs(*specs); err != nil {
 		fmt.Println("specs:", err)
 		os.Exit(2)
